@@ -131,6 +131,27 @@ def gen_cases(rng, tier):
         spec["kind"] = "loop"
         k += 1
         yield spec
+    # ... and the same schedulers (their removal callback comes with the scheduler) on a back-end created with
+    # delete_checkpoints=False: nothing is deleted at all
+    k = 0
+    while k < (8 if tier == "quick" else 80):
+        spec = loop.gen_spec(rng, tier)
+        if spec["backend"] != "script":
+            continue
+        spec["scheduler"] = {"kind": rng.choice(["sync", "sync", "dehb"]), "modes": rng.choice(["min", "max"]),
+                             "reduction_factor": rng.choice([2, 3]), "brackets": rng.choice([None, 1, 2]),
+                             "max_resource_attr": rng.random() < 0.4}
+        spec["max_t"] = 4 if spec["scheduler"]["reduction_factor"] == 2 else 9
+        spec["n_workers"] = rng.randint(2, 4)
+        spec["delete_checkpoints"] = False
+        spec["criterion"] = {"max_num_trials_started": rng.randint(24, 40)}
+        spec["inject"] = None
+        bp = spec.get("backend_params") or {}
+        bp.update({"p_fail": 0.0, "p_extstop": 0.0, "short_runs": None})
+        spec["backend_params"] = bp
+        spec["kind"] = "loop"
+        k += 1
+        yield spec
     for _ in range(20 if tier == "quick" else 300):
         typ = rng.choice(["promotion", "promotion", "pasha", "cost_promotion", "rush_promotion"])
         c = gen_ctor(rng, typ)
